@@ -513,7 +513,9 @@ Proof. unfold timer_ok, tm_consume. cbn. auto. Qed.
 Lemma call_mark_disp_timer_ok f hf n id h :
   timer_ok (hs_timer h) -> timer_ok (hs_timer (fst (call_mark_disp hcfg_fixed f hf n id h))).
 Proof.
-  intros T. unfold call_mark_disp, faulty. destruct f; cbn [fst]; auto; apply hstep_timer_ok; auto; exact Logic.I.
+  intros T. unfold call_mark_disp, faulty. destruct f; cbn [fst]; auto; try (apply hstep_timer_ok; auto; exact Logic.I).
+  unfold hook_dispatched. destruct (hk_cached (hs_hook h)) as [c|]; auto.
+  destruct (String.eqb id (t_id c)); auto. apply hk_update_timer_ok. exact T.
 Qed.
 
 Lemma TOk_step s l s' : TOk s -> sstepf s l = Some s' -> TOk s'.
